@@ -183,6 +183,8 @@ impl<T> RcInner<T> {
 
     #[inline]
     pub(crate) fn increment_strong(&self) -> bool {
+        #[cfg(feature = "circ_verif")]
+        crate::verif::yp(crate::verif::site::INC_STRONG_FA1, &self.state as *const AtomicU64 as usize);
         let val = State::from_raw(self.state.fetch_add(COUNT, Ordering::SeqCst));
         if val.destructed() {
             return false;
@@ -190,6 +192,8 @@ impl<T> RcInner<T> {
         if val.strong() == 0 {
             // The previous fetch_add created a permission to run decrement again.
             // Now create an actual reference.
+            #[cfg(feature = "circ_verif")]
+            crate::verif::yp(crate::verif::site::INC_STRONG_FA2, &self.state as *const AtomicU64 as usize);
             self.state.fetch_add(COUNT, Ordering::SeqCst);
         }
         true
@@ -197,6 +201,8 @@ impl<T> RcInner<T> {
 
     #[inline]
     unsafe fn try_dealloc(ptr: *mut Self) {
+        #[cfg(feature = "circ_verif")]
+        crate::verif::yp(crate::verif::site::TRY_DEALLOC_LOAD, core::ptr::addr_of!((*ptr).state) as usize);
         if State::from_raw((*ptr).state.load(Ordering::SeqCst)).weak() > 0 {
             Self::decrement_weak(ptr, None);
         } else {
@@ -206,11 +212,15 @@ impl<T> RcInner<T> {
 
     #[inline]
     pub(crate) fn increment_weak(&self, count: u32) {
+        #[cfg(feature = "circ_verif")]
+        crate::verif::yp(crate::verif::site::INC_WEAK_LOAD, &self.state as *const AtomicU64 as usize);
         let mut old = State::from_raw(self.state.load(Ordering::SeqCst));
         while !old.weaked() {
             // In this case, `increment_weak` must have been called from `Rc::downgrade`,
             // guaranteeing weak > 0, so it can’t be incremented from 0.
             debug_assert!(old.weak() != 0);
+            #[cfg(feature = "circ_verif")]
+            crate::verif::yp(crate::verif::site::INC_WEAK_CAS, &self.state as *const AtomicU64 as usize);
             match self.state.compare_exchange(
                 old.as_raw(),
                 old.with_weaked(true).add_weak(count).as_raw(),
@@ -221,6 +231,8 @@ impl<T> RcInner<T> {
                 Err(curr) => old = State::from_raw(curr),
             }
         }
+        #[cfg(feature = "circ_verif")]
+        crate::verif::yp(crate::verif::site::INC_WEAK_FA1, &self.state as *const AtomicU64 as usize);
         if State::from_raw(
             self.state
                 .fetch_add(count as u64 * WEAK_COUNT, Ordering::SeqCst),
@@ -228,6 +240,8 @@ impl<T> RcInner<T> {
         .weak()
             == 0
         {
+            #[cfg(feature = "circ_verif")]
+            crate::verif::yp(crate::verif::site::INC_WEAK_FA2, &self.state as *const AtomicU64 as usize);
             self.state.fetch_add(WEAK_COUNT, Ordering::SeqCst);
         }
     }
@@ -235,6 +249,8 @@ impl<T> RcInner<T> {
     #[inline]
     pub(crate) unsafe fn decrement_weak(ptr: *mut Self, guard: Option<&Guard>) {
         debug_assert!(State::from_raw((*ptr).state.load(Ordering::SeqCst)).weak() >= 1);
+        #[cfg(feature = "circ_verif")]
+        crate::verif::yp(crate::verif::site::DEC_WEAK_FS, core::ptr::addr_of!((*ptr).state) as usize);
         if State::from_raw((*ptr).state.fetch_sub(WEAK_COUNT, Ordering::SeqCst)).weak() == 1 {
             guard.defer_with_inner(ptr, |inner| Self::try_dealloc(inner));
         }
@@ -242,8 +258,12 @@ impl<T> RcInner<T> {
 
     #[inline]
     pub(crate) fn is_not_destructed(&self) -> bool {
+        #[cfg(feature = "circ_verif")]
+        crate::verif::yp(crate::verif::site::NOT_DESTRUCTED_LOAD, &self.state as *const AtomicU64 as usize);
         let mut old = State::from_raw(self.state.load(Ordering::SeqCst));
         while !old.destructed() && old.strong() == 0 {
+            #[cfg(feature = "circ_verif")]
+            crate::verif::yp(crate::verif::site::NOT_DESTRUCTED_CAS, &self.state as *const AtomicU64 as usize);
             match self.state.compare_exchange(
                 old.as_raw(),
                 old.add_strong(1).as_raw(),
@@ -282,8 +302,12 @@ impl<T: RcObject> RcInner<T> {
         let epoch = global_epoch();
         // Should mark the current epoch on the strong count with CAS.
         let hit_zero = loop {
+            #[cfg(feature = "circ_verif")]
+            crate::verif::yp(crate::verif::site::DEC_STRONG_LOAD, core::ptr::addr_of!((*ptr).state) as usize);
             let curr = State::from_raw((*ptr).state.load(Ordering::SeqCst));
             debug_assert!(curr.strong() >= count);
+            #[cfg(feature = "circ_verif")]
+            crate::verif::yp(crate::verif::site::DEC_STRONG_CAS, core::ptr::addr_of!((*ptr).state) as usize);
             if (*ptr)
                 .state
                 .compare_exchange(
@@ -315,6 +339,8 @@ impl<T: RcObject> RcInner<T> {
 
     #[inline]
     unsafe fn try_destruct(ptr: *mut Self) {
+        #[cfg(feature = "circ_verif")]
+        crate::verif::yp(crate::verif::site::TRY_DESTRUCT_LOAD, core::ptr::addr_of!((*ptr).state) as usize);
         let mut old = State::from_raw((*ptr).state.load(Ordering::SeqCst));
         debug_assert!(!old.destructed());
         loop {
@@ -322,6 +348,8 @@ impl<T: RcObject> RcInner<T> {
                 Self::decrement_strong(ptr, 1, None);
                 return;
             }
+            #[cfg(feature = "circ_verif")]
+            crate::verif::yp(crate::verif::site::TRY_DESTRUCT_CAS, core::ptr::addr_of!((*ptr).state) as usize);
             match (*ptr).state.compare_exchange(
                 old.as_raw(),
                 old.with_destructed(true).as_raw(),
@@ -370,6 +398,8 @@ unsafe fn dispose_general_node<T: RcObject>(
         return;
     }
 
+    #[cfg(feature = "circ_verif")]
+    crate::verif::yp(crate::verif::site::DISPOSE_LOAD, &rc.state as *const AtomicU64 as usize);
     let state = State::from_raw(rc.state.load(Ordering::SeqCst));
     let node_epoch = state.epoch();
     debug_assert_eq!(state.strong(), 0);
@@ -385,6 +415,8 @@ unsafe fn dispose_general_node<T: RcObject>(
         rc.data_mut().pop_edges(&mut outgoings);
         unsafe {
             ManuallyDrop::drop(&mut rc.storage);
+            #[cfg(feature = "circ_verif")]
+            crate::verif::yp(crate::verif::site::DISPOSE_WEAKED_LOAD, &rc.state as *const AtomicU64 as usize);
             if State::from_raw(rc.state.load(Ordering::SeqCst)).weaked() {
                 RcInner::decrement_weak(rc, Some(guard));
             } else {
@@ -402,11 +434,15 @@ unsafe fn dispose_general_node<T: RcObject>(
 
             // Decrement next node's strong count and update its epoch.
             let next_cnt = loop {
+                #[cfg(feature = "circ_verif")]
+                crate::verif::yp(crate::verif::site::DISPOSE_CHILD_LOAD, &next_ref.state as *const AtomicU64 as usize);
                 let cnt_curr = State::from_raw(next_ref.state.load(Ordering::SeqCst));
                 let next_epoch =
                     modu.max(&[node_epoch as _, link_epoch as _, cnt_curr.epoch() as _]);
                 let cnt_next = cnt_curr.sub_strong(1).with_epoch(next_epoch as _);
 
+                #[cfg(feature = "circ_verif")]
+                crate::verif::yp(crate::verif::site::DISPOSE_CHILD_CAS, &next_ref.state as *const AtomicU64 as usize);
                 if next_ref
                     .state
                     .compare_exchange(
